@@ -107,6 +107,8 @@ pk_exec = Function("pk_exec", RSeq, RSeq, RSeq)        # depth-first execution o
 pk_aq = Function("pk_aq", RSeq, RSeq, RSeq, RSeq)      # applyTok tokens Q R: the queue afterwards
 pk_ar = Function("pk_ar", RSeq, RSeq, RSeq, RSeq)      # applyTok tokens Q R: the trace afterwards
 py_ge = Function("py_ge", Ref, Int, Bool)              # opaque value >= int
+wl_ok = Function("wl_ok", Ref, Bool)                   # a content value has the shape {key: mapping} (items() / dict() of every entry work)
+wl_new = Function("wl_new", Ref, Ref, Bool)            # x is one of the dict objects a deep copy r created
 selkeys = Function("selkeys", RSeq, Ref, RSeq)         # [k for k in s if k[0] is c]: List.filter on the first component of pair keys
 
 _counter = itertools.count()
